@@ -8,13 +8,18 @@
 //! reply streams.  All random choices derive from the single seed.
 
 mod colfmt;
+mod decode;
 mod exec;
 mod expr;
 mod gen;
+mod hist;
 mod oracle;
 mod reader;
+mod refdb;
 mod session;
+mod snap;
 mod util;
+mod walk;
 
 use std::env;
 use std::process::exit;
